@@ -12,6 +12,18 @@ CLAIMS = {
    text='Proof, for all lengths 0..64 and all arguments symbolically, of a stated obligation set over the real MIR of every body in misc::bitseq: every compiler-inserted overflow/shift check and pow call is discharged (so the 64-bit boundary and over-capacity operations are rejected by explicit asserts and never wrap), len <= 64 and width(val) <= len hold at every return, fields are private and every literal establishes the invariant, and Ord is the lexicographic chain (len, weight, val) covering all Eq fields. Functional equivalence of each operation with the list-of-booleans operation is NOT decided.',
    ref='DESIGN.md §3 E4; §4 C17',
    note='Trusted: MIR semantics of checked arithmetic; in-house Fourier-Motzkin and width algebra; explicit assert!s are the documented rejections.'),
+ 'C14': dict(cat='other', tech='static analysis: path-sensitive symbolic summaries (canonical-form typestate), float-taint dataflow, operator-variant delegation check over MIR',
+   text='Static analysis, for all operand values and all operation histories (induction over the API), of necessary conditions of C14: Ratio is in lowest terms with normalised denominator on every return path of every function that can touch its fields (reduce() itself checked path by path; two reviewed shortcut shapes; raw construction only at reviewed sites; fields private), FF<p> representatives come only from rem_euclid/0/1, no float is on any data/control path of ring operations, Eq or Ord of the scalar types (order consistent with equality at any magnitude), and every by-value/by-ref/assigning operator variant is a pure in-order delegation to one hand-written body. The ring axioms as arithmetic and the QuadInt product formula are NOT decided.',
+   ref='DESIGN.md §3 E1, E2; §4 C14',
+   note='Trusted: rustc MIR; operator-assign trait contract; theorem that a cross-cancelled product of reduced fractions is reduced; EucRing::gcd normalised (C15).'),
+ 'C16': dict(cat='other', tech='static analysis: typestate dataflow (dirty => normalise before escape) over MIR CFGs',
+   text='Static must-analysis over the MIR (all paths incl. loops) of the representation invariants that polynomial equality relies on: Lc never escapes with a possibly-zero coefficient stored and MultiDeg never with a zero exponent - every dirtying event (field write, &mut into the map given to a non-preserving method, documented-dirty add_pair*) reaches clean()/reduce() before the value is returned or moved; raw construction only at reviewed, mechanically justified sites; fields private; callers of the dirty API workspace-wide are checked. By induction over the API equality, is_zero, term count are those of the mathematical object after any operation sequence. Ring axioms, evaluation homomorphism and order compatibility are NOT decided.',
+   ref='DESIGN.md §3 E1; §4 C16',
+   note='Trusted: container-method preservation table; received values clean by induction; unwinding paths not considered.'),
+ 'C01': dict(cat='other', tech='static analysis: typestate dataflow for cobordism/tangle normal form (more clauses follow)',
+   text='Static analysis of structural necessary conditions of C01 only - the isomorphism with the cube-of-resolutions homology is NOT decided. Decided for every path: Tng and Cob (hash-map keys of the linear combinations that make up the differential) keep their sorted normal form: every mutation of the component vector reaches normalize() before the value escapes, literals only after sorting, fields private.',
+   ref='DESIGN.md §3 E1; §4 C01',
+   note='Trusted: Vec order-preserving method table; values received from outside are normalised (induction).'),
 }
 
 NA = {
